@@ -1,5 +1,6 @@
 import Ivg.Lemmas.EncoderProto
 import Ivg.Lemmas.Selectors
+import Ivg.Lemmas.RenderHist
 import Ivg.Model.Arc
 import Ivg.Gen.Tie.EncoderFields
 import Ivg.Gen.Tie.GradientFields
@@ -118,6 +119,92 @@ example : RendererReset.WellBracketed false
 example : ¬ RendererReset.WellBracketed false [Call.d1 .H F32.zero] := by
   simp [RendererReset.WellBracketed, RendererReset.pathStep]
 
+
+/-! ## Renderer: histories with `SetRasterizer`
+
+`RenOp α` is a Destination call or `SetRasterizer(_, r)`; `z.runOps` runs a history
+(`Ivg/Lemmas/RenderHist.lean`).  `renderer_reset_forgets` above needs the two Renderers to point at the
+same rectangle and its program contains no `SetRasterizer`; here the rectangle is set inside the history. -/
+section renderer_histories
+variable {α β : Type} [Arith α] [Arith β] [Wide α β]
+open RendererReset Ivg.RenderHist Ivg.Lemmas.RendererVM
+
+/-- Clause "depends only on the calls made since its last Reset", state part (`reset_reseeds`): after ANY
+    history `h` from ANY state, `Reset vb pal` leaves all 64 colour registers = `pal`, all 64 number
+    registers zero, both selectors 0, LOD = (0, +∞), viewBox = `vb`, palette = `pal`, no smooth point, the
+    transform recalculated for the rectangle of the last `SetRasterizer` — which `Reset` leaves alone — and
+    the specification's initial machine state; also when `vb`/`pal` are the ones already stored. -/
+theorem reset_reseeds (arc : ArcFn α β) (posInf : α) (z0 : Renderer α β) (h : List (RenOp α))
+    (vb : ViewBox α) (pal : Palette) :
+    let z := (z0.runOps arc posInf (h ++ [.call (.reset vb pal)])).1
+    z.cReg = pal ∧ z.nReg = Regs.const zeroA ∧ z.cSel = 0 ∧ z.nSel = 0 ∧ z.lod0 = zeroA ∧ z.lod1 = posInf ∧
+    z.viewBox = vb ∧ z.palette = pal ∧ z.prevSmoothType = 0 ∧ z.r = rectAfter z0.r h ∧
+    TransformOK z ∧ absVM z = Spec.VM.VM.init posInf pal :=
+  RenderHist.reset_reseeds arc posInf z0 h vb pal
+
+/-- `renderer_reset_forgets` for histories: same rectangle, and the well-bracketed history `B` after the
+    `Reset` may contain `SetRasterizer` (between paths, or anywhere else). -/
+theorem renderer_reset_forgets_hist (arc : ArcFn α β) (posInf : α) (z₁ z₂ : Renderer α β) (hr : z₁.r = z₂.r)
+    (vb : ViewBox α) (pal : Palette) (B : List (RenOp α)) (hB : WellBracketedOps false B) :
+    (z₁.runOps arc posInf (.call (.reset vb pal) :: B)).2 = (z₂.runOps arc posInf (.call (.reset vb pal) :: B)).2 ∧
+    shared (z₁.runOps arc posInf (.call (.reset vb pal) :: B)).1 =
+      shared (z₂.runOps arc posInf (.call (.reset vb pal) :: B)).1 :=
+  reset_forgets_hist arc posInf z₁ z₂ hr vb pal B hB
+example : RenderHist.WellBracketedOps false
+    [RenOp.rast ⟨0, 0, 8, 8⟩, .call (.setCSel 1), .call (.startPath 0 F32.zero F32.zero), .rast ⟨0, 0, 9, 9⟩,
+     .call (.d1 .H F32.zero), .call .closeEnd, .rast ⟨1, 1, 9, 9⟩, .call (.setLOD F32.zero F32.posInf),
+     .call (.startPath 1 F32.zero F32.zero)] := RenderHist.Ex.wb_example
+
+/-- Clause "reusing … a Renderer and its rasteriser for another decode gives results identical to fresh
+    objects", with the documented `SetRasterizer r; Reset; …`: two Renderers in ANY two states — other
+    rectangles, other transforms, other palettes and registers, a path open or disabled — make exactly the
+    same rasteriser calls and agree afterwards on every field but the four dead ones (`shared`). -/
+theorem renderer_rast_reset_forgets (arc : ArcFn α β) (posInf : α) (z₁ z₂ : Renderer α β) (r : Rect)
+    (vb : ViewBox α) (pal : Palette) (B : List (RenOp α)) (hB : WellBracketedOps false B) :
+    (z₁.runOps arc posInf (.rast r :: .call (.reset vb pal) :: B)).2 =
+      (z₂.runOps arc posInf (.rast r :: .call (.reset vb pal) :: B)).2 ∧
+    shared (z₁.runOps arc posInf (.rast r :: .call (.reset vb pal) :: B)).1 =
+      shared (z₂.runOps arc posInf (.rast r :: .call (.reset vb pal) :: B)).1 :=
+  rast_reset_forgets arc posInf z₁ z₂ r vb pal B hB
+
+/-- … and in the other order, `Reset; register-setting calls; SetRasterizer r; …` (with no register-setting
+    call: `Reset; SetRasterizer r; …`): the rectangle and scale `Reset` used are replaced before anything
+    is drawn. -/
+theorem renderer_reset_rast_forgets (arc : ArcFn α β) (posInf : α) (z₁ z₂ : Renderer α β) (r : Rect)
+    (vb : ViewBox α) (pal : Palette) (S : List (Call α)) (hS : ∀ c ∈ S, isRegCall c = true)
+    (B : List (RenOp α)) (hB : WellBracketedOps false B) :
+    (z₁.runOps arc posInf (.call (.reset vb pal) :: (S.map .call ++ .rast r :: B))).2 =
+      (z₂.runOps arc posInf (.call (.reset vb pal) :: (S.map .call ++ .rast r :: B))).2 ∧
+    shared (z₁.runOps arc posInf (.call (.reset vb pal) :: (S.map .call ++ .rast r :: B))).1 =
+      shared (z₂.runOps arc posInf (.call (.reset vb pal) :: (S.map .call ++ .rast r :: B))).1 :=
+  reset_rast_forgets arc posInf z₁ z₂ r vb pal S hS B hB
+example : ∀ c ∈ [(.setCSel 3 : Call F32), .setNReg 0 true F32.zero, .setLOD F32.zero F32.posInf],
+    isRegCall c = true := by decide
+
+/-- "whatever the earlier history was": a Renderer with ANY history `A` behind it (earlier graphics at other
+    sizes, ending mid-path, …), then `SetRasterizer r; Reset; B`: the whole output is the output of `A`
+    followed by what a FRESH (zero value) Renderer produces for `SetRasterizer r; Reset; B`. -/
+theorem renderer_reuse_hist (arc : ArcFn α β) (posInf : α) (z : Renderer α β) (A : List (RenOp α)) (r : Rect)
+    (vb : ViewBox α) (pal : Palette) (B : List (RenOp α)) (hB : WellBracketedOps false B) :
+    (z.runOps arc posInf (A ++ .rast r :: .call (.reset vb pal) :: B)).2 =
+      (z.runOps arc posInf A).2 ++
+        ((Renderer.zero : Renderer α β).runOps arc posInf (.rast r :: .call (.reset vb pal) :: B)).2 :=
+  reuse_hist arc posInf z A r vb pal B hB
+
+/-- … the same with `SetRasterizer` after `Reset`. -/
+theorem renderer_reuse_hist' (arc : ArcFn α β) (posInf : α) (z : Renderer α β) (A : List (RenOp α)) (r : Rect)
+    (vb : ViewBox α) (pal : Palette) (B : List (RenOp α)) (hB : WellBracketedOps false B) :
+    (z.runOps arc posInf (A ++ .call (.reset vb pal) :: .rast r :: B)).2 =
+      (z.runOps arc posInf A).2 ++
+        ((Renderer.zero : Renderer α β).runOps arc posInf (.call (.reset vb pal) :: .rast r :: B)).2 :=
+  reuse_hist' arc posInf z A r vb pal B hB
+
+/-- a well-bracketed call sequence is a well-bracketed history -/
+theorem wellBracketedOps_of_calls (cs : List (Call α)) (b : Bool) (h : WellBracketed b cs) :
+    WellBracketedOps b (cs.map .call) := wellBracketedOps_calls cs b h
+
+end renderer_histories
+
 /-!
 ## Not proved in this file
 
@@ -128,6 +215,11 @@ example : ¬ RendererReset.WellBracketed false [Call.d1 .H F32.zero] := by
 * `renderer_reset_forgets` needs `WellBracketed`: for a program that draws before its first
   `StartPath` the stale `disabled` flag decides whether anything is emitted (the decoder never
   delivers such a program, and the Encoder rejects it).
+* Histories: between `Reset` and a later `SetRasterizer` only register-setting calls are covered by
+  `renderer_reset_rast_forgets` — a path drawn in between is drawn into whatever rectangle each Renderer
+  had, so the outputs legitimately differ.  `SetRasterizer` is modelled as handing over a fresh rasteriser;
+  that a REUSED `raster.Rasterizer` is as good as a fresh one is `StartPath`'s `z.z.Reset(w, h)` (the first
+  rasteriser call of every enabled path, `C05.path_after_rast`), the rasteriser itself being outside /repo.
 * Go-level buffer reuse (`e.buf[:0]`, `g.Ranges[:0]`, the `stops` scratch array) is not modelled; the
   model is functional.  The differential suite exercises reuse on the Go side.
 -/
@@ -138,4 +230,7 @@ end Ivg.Props.C17
   Ivg.Props.C17.encoder_reset_clears, Ivg.Props.C17.encoder_reset_forgets,
   Ivg.Props.C17.encoder_reset_forgets_bytes, Ivg.Props.C17.bytes_idempotent, Ivg.Props.C17.deterministic,
   Ivg.Props.C17.renderer_reset_forgets, Ivg.Props.C17.renderer_reuse, Ivg.Props.C17.respecting_is_wellBracketed,
+  Ivg.Props.C17.reset_reseeds, Ivg.Props.C17.renderer_reset_forgets_hist, Ivg.Props.C17.renderer_rast_reset_forgets,
+  Ivg.Props.C17.renderer_reset_rast_forgets, Ivg.Props.C17.renderer_reuse_hist, Ivg.Props.C17.renderer_reuse_hist',
+  Ivg.Props.C17.wellBracketedOps_of_calls,
   Ivg.Gen.Tie.encoder_fields_tie, Ivg.Gen.Tie.renderer_fields_tie, Ivg.Gen.Tie.gradient_fields_tie]
